@@ -391,3 +391,113 @@ class RlaToArray(Family):
         return {"a": [3, 3, 5, 3, 7, 7], "dtype": "float64" if kind.startswith("float") else "uint64"}
 
     bounded_cases = RlaUfunc.bounded_cases
+
+
+@register
+class RlaStartToEnd(Family):
+    """_start_to_end(start, end), scalar form, 0 <= start < end <= n: a canonical (events', values') pair of length end - start
+    whose dense content is Dense[start + p]"""
+    name = "RunLengthArray._start_to_end"
+    qualname = "npstructures.runlengtharray:RunLengthArray._start_to_end"
+    serves = ["C15", "C14"]
+    timeout_ms = 30000
+    assumed = ["numpy.searchsorted (left and right) on the sorted run boundaries"]
+
+    def run(self, ctx, kind):
+        a = sym_rla(ctx)
+        m, E, V, n = a.m, a.E, a.V, a.n
+        lo, hi = z3.Int("start"), z3.Int("end")
+        ctx.assume(z3.And(0 <= lo, lo < hi, hi <= n))
+        ctx.add_index(m, m - 1, z3.IntVal(0))
+        ev, va = a.obj._start_to_end(SInt(lo), SInt(hi))
+        k = dim_term(va.shape_[0])
+        ctx.prove("post.len(events')==len(values')+1", dim_term(ev.shape_[0]) == k + 1)
+        ctx.prove("post.at least one run", k >= 1)
+        ctx.prove("post.events'[0]==0 and events'[-1]==end-start", z3.And(ev.get(0) == 0, ev.get(k) == hi - lo))
+        t = z3.Int("t")
+        ctx.skolem(z3.And(0 <= t, t < k))
+        ctx.add_index(t, t + 1)
+        ctx.prove("post.strictly increasing boundaries", ev.get(t) < ev.get(t + 1))
+        # dense content: position p of the result lies in result run t  =>  source position start+p lies in a source run with the same value
+        p, u = z3.Int("p"), z3.Int("u")
+        ctx.skolem(z3.And(ev.get(t) <= p, p < ev.get(t + 1)))
+        ctx.skolem(z3.And(0 <= u, u < m, E(u) <= lo + p, lo + p < E(u + 1)))
+        ctx.add_index(u, u + 1)
+        ctx.prove("post.Dense'[p]==Dense[start+p]", va.get(t) == V(u))
+        ctx.prove("post.operand not modified", z3.BoolVal(a.ev.buf.writes == 0 and a.va.buf.writes == 0))
+
+    def concrete(self, case):
+        from npstructures import RunLengthArray
+        x = np.array(case["a"])
+        r = RunLengthArray.from_array(x)
+        n = len(x)
+        for lo in range(n):
+            for hi in range(lo + 1, n + 1):
+                ev, va = r._start_to_end(lo, hi)
+                sub = RunLengthArray(ev, va)
+                if np.asarray(sub).tolist() != x[lo:hi].tolist():
+                    return {"msg": f"_start_to_end({lo},{hi}) on {case['a']}: {np.asarray(sub).tolist()}", "sig": "wrong:rla-start_to_end"}
+
+    def concretise(self, kind, model, ghost):
+        return {"a": [1, 1, 2, 3, 3, 3, 1]}
+
+    bounded_cases = RlaUfunc.bounded_cases
+
+
+@register
+class RlaAnyAllMax(Family):
+    """any / all / max over the run values equal any / all / max over the dense array, because no run is empty"""
+    name = "RunLengthArray.any/all/max"
+    qualname = "npstructures.runlengtharray:RunLengthArray.any"
+    serves = ["C16"]
+    assumed = ["numpy.any / numpy.all / ndarray.max contracts (witness form)"]
+
+    def kinds(self):
+        return ["any", "all", "max"]
+
+    def run(self, ctx, kind):
+        a = sym_rla(ctx, kind="bool" if kind != "max" else "int")
+        m, E, V, n = a.m, a.E, a.V, a.n
+        run_ = z3.Function(fresh_name("run"), z3.IntSort(), z3.IntSort())
+        ctx.assume_forall("run", lambda p: z3.Implies(z3.And(0 <= p, p < n), z3.And(0 <= run_(p), run_(p) < m, E(run_(p)) <= p, p < E(run_(p) + 1))))
+        dense = lambda p: V(run_(p))
+        res = getattr(a.obj, kind)()
+        p = z3.Int("p")
+        if kind == "max":
+            r = res.t
+            ctx.skolem(z3.And(0 <= p, p < n))
+            ctx.add_index(p, run_(p), run_(p) + 1)
+            ctx.prove("post.upper bound of every dense element", dense(p) <= r)
+            # attained: the witness run w of numpy's max starts at position E(w), which lies in run w
+            w = [t for t in ctx.pool if "argext" in str(t)]
+            wt = w[-1]
+            ctx.add_index(E(wt), wt, wt + 1, run_(E(wt)), run_(E(wt)) + 1)
+            ctx.prove("post.attained at some dense position", z3.And(0 <= E(wt), E(wt) < n, dense(E(wt)) == r))
+            return
+        rt = res.t
+        if kind == "any":
+            # (=>) true: some dense position is true   (<=) false: every dense position is false
+            wits = [t for t in ctx.pool if "w_npany" in str(t)]
+            wt = wits[-1]
+            ctx.add_index(E(wt), run_(E(wt)), run_(E(wt)) + 1, wt, wt + 1)
+            ctx.prove("post.true => a true dense position exists (the start of the witness run)", z3.Implies(rt, z3.And(E(wt) < n, dense(E(wt)))))
+            ctx.skolem(z3.And(0 <= p, p < n))
+            ctx.add_index(p, run_(p), run_(p) + 1)
+            ctx.prove("post.false => every dense position is false", z3.Implies(z3.Not(rt), z3.Not(dense(p))))
+        else:
+            wits = [t for t in ctx.pool if "w_npall" in str(t)]
+            wt = wits[-1]
+            ctx.add_index(E(wt), run_(E(wt)), run_(E(wt)) + 1, wt, wt + 1)
+            ctx.prove("post.false => a false dense position exists", z3.Implies(z3.Not(rt), z3.And(E(wt) < n, z3.Not(dense(E(wt))))))
+            ctx.skolem(z3.And(0 <= p, p < n))
+            ctx.add_index(p, run_(p), run_(p) + 1)
+            ctx.prove("post.true => every dense position is true", z3.Implies(rt, dense(p)))
+
+    def concrete(self, case):
+        from npstructures import RunLengthArray
+        x = np.array(case["a"])
+        r = RunLengthArray.from_array(x)
+        if bool(r.any()) != bool(x.any()) or bool(r.all()) != bool(x.all()) or r.max() != x.max():
+            return {"msg": f"any/all/max of rla({case['a']})", "sig": "wrong:rla-any-all-max"}
+
+    bounded_cases = RlaUfunc.bounded_cases
